@@ -3,7 +3,7 @@
    (binary32 room arithmetic); the returned assignment, score, statistics and quality figures are compared with the final model
    state and checked against the executable specification. *)
 From Coq Require Import List ZArith Bool Arith NArith.
-Require Import HP1 Cao1 Cao3 Score1 Rooms F32 Node Spec Quality Solve CorrSel CorrNode CorrTree.
+Require Import HP1 Cao1 Cao3 Score1 Rooms F32 Node Spec Quality Solve CorrSel CorrNode CorrTree RoomSites.
 Require Import EngP2 EngExec.
 Import ListNotations.
 Open Scope nat_scope.
@@ -60,7 +60,7 @@ Definition check_solve (c : solve_case) : N :=
   let es := esize32 params in let sf := shrinkf32 params in
   let f := f_full courses parts es sf rooms in
   let '(fin, maxok) := replay_s f (init node assignment root CorrTree.smin CorrTree.smax k) evs 0 true in
-  let cls := Spec.validb courses parts in
+  let cls := Spec.validb courses parts && float_saneb courses es sf rooms in
   let tc := in_tc courses parts in
   let nb := match rooms with Some rs => nonbindingb courses es rs | None => false end in
   let base := ((if cls then 32 else 0) + (if tc then 2048 else 0) + (if nb then 16384 else 0) + (if Nat.eqb outcome 0 then 32768 else 0))%N in
